@@ -119,17 +119,17 @@ var strSpecial = []string{"", " ", "a", "A", "aa", "\x00", "a\x00b", "한글", "
 
 func lessOrd[K int32 | int64 | string](a, b K) bool { return a < b }
 
-func i32s(k int32) string { return strconv.FormatInt(int64(k), 10) }
-func i64s(k int64) string { return strconv.FormatInt(k, 10) }
+func i32s(k int32) string  { return strconv.FormatInt(int64(k), 10) }
+func i64s(k int64) string  { return strconv.FormatInt(k, 10) }
 func strs(k string) string { return strconv.Quote(k) }
 
 // hash replicas (steering only: they decide which keys are LIKELY to collide)
-func hIdent32(k int32) uint  { return uint(k) }
-func hMask32(k int32) uint   { return uint(k & math.MaxInt32) }
-func hIdent64(k int64) uint  { return uint(k) }
-func hFold64(k int64) uint   { return uint(k ^ k>>32) }
-func hCrc(k string) uint     { return uint(hash.HashStr(k)) }
-func hJava(k string) uint    { return uint(stringutil.HashCode(k)) }
+func hIdent32(k int32) uint { return uint(k) }
+func hMask32(k int32) uint  { return uint(k & math.MaxInt32) }
+func hIdent64(k int64) uint { return uint(k) }
+func hFold64(k int64) uint  { return uint(k ^ k>>32) }
+func hCrc(k string) uint    { return uint(hash.HashStr(k)) }
+func hJava(k string) uint   { return uint(stringutil.HashCode(k)) }
 
 func poolSize(n int, small bool) int {
 	if small {
@@ -165,14 +165,16 @@ func pool64(r *rand.Rand, n int, h func(int64) uint, caps []uint, small bool) *h
 	return hmapx.NewPool(hmapx.PickKeys(r, n, 7000, int64Cands, int64Special, h, caps), lessOrd[int64], i64s)
 }
 
-func poolStr(r *rand.Rand, n int, h func(string) uint, caps []uint, small bool, withEmpty bool) *hmapx.Pool[string] {
+// nsmall is the size of the small pool: 3, or 4 for the types that refuse the
+// empty string (the refused key plus three usable ones, as MC_LinkedDict_*rej.cfg)
+func poolStr(r *rand.Rand, n int, h func(string) uint, caps []uint, small bool, withEmpty bool, nsmall int) *hmapx.Pool[string] {
 	if small { // the empty string (where it matters) and keys sharing a bucket
 		var ks []string
 		if withEmpty {
 			ks = append(ks, "")
 		}
 		t := h(strCands(r.Intn(4000))) % caps[0]
-		for i := 0; len(ks) < 3 && i < 400000; i++ {
+		for i := 0; len(ks) < nsmall && i < 400000; i++ {
 			if k := strCands(i); h(k)%caps[0] == t {
 				ks = append(ks, k)
 			}
@@ -319,7 +321,7 @@ var Types = []TypeDef{
 		}
 	}},
 	{Name: "StringKeyLinkedMap", VLo: 1, VHi: 9, New: func(r *rand.Rand, n int, c Ctor, small bool) func() *hmapx.Obj {
-		p := poolStr(r, n, hCrc, c.Caps(), small, true)
+		p := poolStr(r, n, hCrc, c.Caps(), small, true, 3)
 		return func() *hmapx.Obj {
 			m := hmap.NewStringKeyLinkedMap()
 			keys := func() []int { return strEnum(m.Keys(), p.Rank) }
@@ -384,14 +386,14 @@ var Types = []TypeDef{
 		}
 	}},
 	{Name: "StringIntLinkedMap", VLo: -3, VHi: 9, New: func(r *rand.Rand, n int, c Ctor, small bool) func() *hmapx.Obj {
-		p := poolStr(r, n, hCrc, c.Caps(), small, true)
+		p := poolStr(r, n, hCrc, c.Caps(), small, true, 4)
 		return func() *hmapx.Obj {
 			m := hmap.NewStringIntLinkedMap()
 			return buildStrNumMap[int32]("StringIntLinkedMap", m, p, func(n int) { m.SetMax(n) })
 		}
 	}},
 	{Name: "StringLongLinkedMap", VLo: -3, VHi: 9, New: func(r *rand.Rand, n int, c Ctor, small bool) func() *hmapx.Obj {
-		p := poolStr(r, n, hCrc, c.Caps(), small, true)
+		p := poolStr(r, n, hCrc, c.Caps(), small, true, 4)
 		return func() *hmapx.Obj {
 			m := hmap.NewStringLongLinkedMap()
 			return buildStrNumMap[int64]("StringLongLinkedMap", m, p, func(n int) { m.SetMax(n) })
@@ -459,7 +461,7 @@ var Types = []TypeDef{
 		}
 	}},
 	{Name: "StringLinkedSet", VLo: 0, VHi: 0, New: func(r *rand.Rand, n int, c Ctor, small bool) func() *hmapx.Obj {
-		p := poolStr(r, n, hJava, c.Caps(), small, true)
+		p := poolStr(r, n, hJava, c.Caps(), small, true, 4)
 		return func() *hmapx.Obj {
 			m := hmap.NewStringLinkedSet()
 			pk := func(x interface{}) []int {
